@@ -18,6 +18,9 @@ func VerifH12() {
 		P = 3
 	}
 	nd.Bound("H12.preemption_bound", P)
+	// the happens-before monitor watches the read-writer's fields and its buffer: an access that
+	// slipped out of the critical section is reported whatever the explored schedules show
+	nd.RaceMonitor(true)
 	nd.SetPreemptionBound(P)
 	rw := NewReadWriter()
 	rw.Add(1)
